@@ -4,6 +4,8 @@ import Enc.Spec.Json.EmbedCycle
 import Enc.Lemmas.JsonCodecChoiceDecTerm
 import Enc.Lemmas.JsonCodecChoiceDecStd
 import Enc.Lemmas.JsonCodecChoiceDecCache
+import Enc.Spec.Json.DecDeviation
+import Enc.Lemmas.JsonCodecChoiceDecFull
 /-!
 # C01 / C02 / C09 — codec CONSTRUCTION in json/codec.go, the DECODE half: which decoder a Go type gets
 
@@ -13,10 +15,10 @@ encoding/json's `indirect` / `d.object` / `literalStore` rule; `nullActS`). Corr
 `json.codecchoicedec` (harness/c01codecdec.go: ~4800 zoo values × document variants, three cache histories each), driver
 `Enc/Driver/JsonCodecDec.lean`.
 
-Statements only; proofs in Enc/Lemmas/JsonCodecChoiceDec{Seen,Term,Std,Cache}.lean.
+Statements only; proofs in Enc/Lemmas/JsonCodecChoiceDec{Seen,Term,Std,Evo,Emb,Shape,Full,Cache}.lean.
 -/
 namespace Enc.Props.C01CodecDec
-open Enc.Model.Json.CodecChoice Enc.Spec.Json.StdCodecChoiceDec
+open Enc.Model.Json.CodecChoice Enc.Spec.Json.StdCodecChoiceDec Enc.Spec.Json.EmbedCycle Enc.Spec.Json.DecDeviation
 
 /-! ## Termination -/
 
@@ -63,28 +65,101 @@ example :
 abbrev SimpleD := Lemmas.JsonCodecChoiceDecStd.SimpleD
 abbrev KeysOKD := Lemmas.JsonCodecChoiceDecStd.KeysOKD
 
-/-- **chooseDec_eq_std_partial.** For every type built from scalar kinds, the special types, interfaces, defined types
-of scalar / interface / chan kind WITH ANY METHOD SETS, and unnamed slices, arrays, maps and pointers nested arbitrarily
-(`SimpleD`), no map key type of which has both `(*K).UnmarshalJSON` and `(*K).UnmarshalText` (`KeysOKD`), for both
-values of `canAddr`, both ways of reaching the value (`viaPtr`) and every depth: the decoder tree constructCodec builds
-IS the tree of encoding/json's rule — kind dispatch, unmarshaler detection on `*T`, byte slices and their element
-unmarshalers, the five fast map paths, map keys (TextUnmarshaler, string kind, integer kinds, unsupported), interfaces.
+/-- **chooseDec_eq_std.** For EVERY environment of type definitions (mutually recursive ones included) and every type `t`
+of the universe — scalar kinds, the special types, interfaces, slices, arrays, maps, pointers, STRUCT types with embedding
+(promoted fields in place, through embedded pointers too) and the `string` option, defined types of any kind with any
+method sets, recursion through struct types (`seen`, back references `structRef`) and through named
+slice/map/pointer/array types (`recur`) — under hypotheses that exclude exactly the recorded differences that change the
+decoder tree:
+* `embedCycle env t = false`: no struct inside `t` lies on a cycle made of EMBEDDED structs only (class
+  `jsonEmbeddedStructUnderConstruction`, what is left of it; necessity: `embedded_cycle_differs_dec`);
+* `decDeviationFree env t = true` (Spec/Json/DecDeviation.lean, a decidable certificate check for `DevFree env t`): no
+  slice / array element, map value or regular struct field inside `t` is an UNNAMED struct type with a promoted
+  unmarshaling method (class `jsonDecPromotedUnmarshalerOfUnnamedStruct`; as the target of a pointer such a type is fine;
+  necessity: `promoted_unmarshaler_unnamed_struct_differs`), and no map key type inside `t` has both `(*K).UnmarshalJSON`
+  and `(*K).UnmarshalText` (class `jsonDecMapKeyPrefersUnmarshalText`; necessity: `mapKey_both_unmarshalers_differs`);
+for both values of `canAddr` and every depth `d`: the decoder tree `constructCodec(t, {}, a)` builds, back references
+resolved in the final `seen`, IS the tree of encoding/json's rule for a value reached through a pointer (the target of
+Unmarshal): kind dispatch, unmarshaler detection on `*T` (`indirect`), byte slices and their element unmarshalers, the five
+fast map paths, map keys, interfaces, struct fields with promotion, embedded pointers and the `string` option
+(`quoted` / `quotedInt` around the complete decoder of the scalar or pointer-to-scalar field type).
+The other decode-side classes (`jsonDecNullKeepsTextUnmarshalerContainer`, `jsonNullNestedPointer`,
+`jsonDecNullNamedInterfaceHoldingPointer`) do not change the tree (`null_handling_differs`): no hypothesis about them. -/
+theorem chooseDec_eq_std (env : Env) (t : TD) (a : Bool) (h : embedCycle env t = false)
+    (hdev : decDeviationFree env t = true) (d : Nat) :
+    expandDecD d env (chooseDec env t a).2 (chooseDec env t a).1 = stdDecD d env t true :=
+  Lemmas.JsonCodecChoiceDecFull.chooseDec_eq_std env t a (embedCycle_sound env t h) (decDeviationFree_sound env t hdev)
+    true rfl d
 
-FULL STATEMENT (not proved; what is missing is the bookkeeping of `seen` for struct types and named composite types,
-as on the encode side, and the field lists — `string` option, embedded structs and pointers):
+/-- the same with the graph-theoretic hypotheses themselves, and for a value reached either way (`viaPtr`): when it is
+not the target of a pointer, `t` itself must not be an unnamed struct type with a promoted unmarshaling method (`posOK`) -/
+theorem chooseDec_eq_std_pos (env : Env) (t : TD) (a viaPtr : Bool) (h : NoEmbeddedCycle env t) (hdev : DevFree env t)
+    (hv : posOK env t viaPtr = true) (d : Nat) :
+    expandDecD d env (chooseDec env t a).2 (chooseDec env t a).1 = stdDecD d env t viaPtr :=
+  Lemmas.JsonCodecChoiceDecFull.chooseDec_eq_std env t a h hdev viaPtr hv d
 
-    theorem chooseDec_eq_std (env : Env) (t : TD) (a : Bool)
-        (hk : no map key type, anywhere, has both unmarshaling methods)
-        (hp : no unnamed struct type, anywhere but as the target of a pointer, has a promoted unmarshaling method)
-        (he : NoEmbeddedCycle env t — no struct type lies on a cycle of EMBEDDED structs, Spec/Json/EmbedCycle.lean)
-        (d : Nat) :
-        expandDecD d env (chooseDec env t a).2 (chooseDec env t a).1 = stdDecD d env t true
+/-- non-vacuity: `type S struct { E; V T; Next *S; L []S; Q *N `json:",string"`; R R; P *struct{ T }; M map[K]int }`,
+`type E struct { *I; Y T }` (embedded, with an embedded pointer inside), `type I struct { Z int `json:",string"` }`,
+`(*T).UnmarshalJSON`, `type N int` with `(*N).UnmarshalText`, `type R []R`, a string-kind key K with `(*K).UnmarshalText`,
+an unnamed struct with a promoted UnmarshalJSON behind a pointer: recursive through `seen` and through a named slice, and
+the hypotheses hold -/
+example :
+    let env : Env :=
+      [(1, ⟨noMeths, .struct (.cons "E" true false (.ref 3) (.cons "V" false false (.ref 2)
+              (.cons "Next" false false (.ptr (.ref 1)) (.cons "L" false false (.slice (.ref 1))
+              (.cons "Q" false true (.ptr (.ref 4)) (.cons "R" false false (.ref 6)
+              (.cons "P" false false (.ptr (.struct (.cons "T" true false (.ref 2) .nil)))
+              (.cons "M" false false (.map (.ref 7) (.prim .int)) .nil))))))))⟩),
+       (2, ⟨⟨.none, .none, .ptr, .none⟩, .struct (.cons "X" false false (.prim .int) .nil)⟩),
+       (3, ⟨noMeths, .struct (.cons "I" true false (.ptr (.ref 5)) (.cons "Y" false false (.ref 2) .nil))⟩),
+       (4, ⟨⟨.none, .none, .none, .ptr⟩, .prim .int⟩),
+       (5, ⟨noMeths, .struct (.cons "Z" false true (.prim .int) .nil)⟩),
+       (6, ⟨noMeths, .slice (.ref 6)⟩),
+       (7, ⟨⟨.none, .none, .none, .ptr⟩, .prim .string⟩)]
+    embedCycle env (.ref 1) = false ∧ decDeviationFree env (.ref 1) = true ∧
+    stdDecD 2 env (.ref 1) true =
+      .struct (.cons "Z" (.prim .int) (.embedPtr (.quoted (.prim .int))) (.cons "Y" (.ref 2) .uj
+        (.cons "V" (.ref 2) .uj (.cons "Next" (.ptr (.ref 1)) (.ptr .cut)
+        (.cons "L" (.slice (.ref 1)) (.slice .cut) (.cons "Q" (.ptr (.ref 4)) (.quoted (.ptr .ut))
+        (.cons "R" (.ref 6) (.slice .cut)
+        (.cons "P" (.ptr (.struct (.cons "T" true false (.ref 2) .nil))) (.ptr .cut)
+        (.cons "M" (.map (.ref 7) (.prim .int)) (.map .ut .cut) .nil))))))))) := by
+  decide +kernel
 
-Evidence for it: evaluated for d ≤ 12 and both `canAddr` on the 4792 zoo descriptors (op json.codeceqdec): the only
-counterexamples (88: 12 map keys, 28 promoted unmarshalers, 48 cycles of embedded structs) are the three excluded
-shapes, which are genuine differences between segmentio and encoding/json
-(`mapKey_both_unmarshalers_differs`, `promoted_unmarshaler_unnamed_struct_differs`, `embedded_cycle_differs_dec`); the
-shape that differed before the repair of json/codec.go now agrees (`embedded_under_construction_agrees_dec`).
+/-- the two hypotheses of `chooseDec_eq_std` cannot be dropped, and each excludes something the other does not: a type
+with `decDeviationFree = false` (no embedded cycle) on which the trees differ — for each of the two classes —, and a type
+with `embedCycle = true` (no other deviation) on which they differ -/
+theorem chooseDec_eq_std_needs_hypotheses :
+    (∃ (env : Env) (t : TD) (a : Bool) (d : Nat), embedCycle env t = false ∧ decDeviationFree env t = false ∧
+      (∃ e, t = .slice e ∧ promotedUnm env e = true) ∧
+      expandDecD d env (chooseDec env t a).2 (chooseDec env t a).1 ≠ stdDecD d env t true) ∧
+    (∃ (env : Env) (t : TD) (a : Bool) (d : Nat), embedCycle env t = false ∧ decDeviationFree env t = false ∧
+      (∃ k v, t = .map k v ∧ mapKeyBothUnm env k = true) ∧
+      expandDecD d env (chooseDec env t a).2 (chooseDec env t a).1 ≠ stdDecD d env t true) ∧
+    (∃ (env : Env) (t : TD) (a : Bool) (d : Nat), embedCycle env t = true ∧ decDeviationFree env t = true ∧
+      expandDecD d env (chooseDec env t a).2 (chooseDec env t a).1 ≠ stdDecD d env t true) :=
+  ⟨⟨[(1, ⟨⟨.none, .none, .ptr, .none⟩, .struct (.cons "X" false false (.prim .int) .nil)⟩)],
+      .slice (.struct (.cons "T" true false (.ref 1) .nil)), false, 3, by decide +kernel, by decide +kernel,
+      ⟨_, rfl, by decide +kernel⟩, by decide +kernel⟩,
+   ⟨[(1, ⟨⟨.none, .none, .ptr, .ptr⟩, .prim .int⟩)], .map (.ref 1) (.prim .int), false, 3, by decide +kernel,
+      by decide +kernel, ⟨_, _, rfl, by decide +kernel⟩, by decide +kernel⟩,
+   ⟨[(1, ⟨noMeths, .struct (.cons "U4" true false (.ptr (.ref 2)) .nil)⟩),
+      (2, ⟨noMeths, .struct (.cons "X4" true false (.ptr (.ref 1)) (.cons "B" false false (.prim .int)
+        (.cons "F" false false (.slice (.struct (.cons "X4" true false (.ref 1) .nil))) .nil)))⟩)],
+      .ptr (.ref 2), true, 4, by decide +kernel, by decide +kernel, by decide +kernel⟩⟩
+
+/-- **chooseDec_eq_std_partial** (kept from the first round; now a special case of `chooseDec_eq_std_pos`). For every type
+built from scalar kinds, the special types, interfaces, defined types of scalar / interface / chan kind WITH ANY METHOD
+SETS, and unnamed slices, arrays, maps and pointers nested arbitrarily (`SimpleD`), no map key type of which has both
+`(*K).UnmarshalJSON` and `(*K).UnmarshalText` (`KeysOKD`), for both values of `canAddr`, both ways of reaching the value
+(`viaPtr`) and every depth: the decoder tree constructCodec builds IS the tree of encoding/json's rule.
+
+How tight the hypotheses of `chooseDec_eq_std` are, measured on the harness zoo (driver op json.codeceqdec: the trees
+compared for d ≤ 12 and both `canAddr`, and the two hypotheses evaluated, on the 2449 distinct descriptors of
+`vh C02 quick 1`): 2327 satisfy both hypotheses (and agree, as proved); all 36 with `decDeviationFree = false` differ (map
+keys with both methods, promoted unmarshalers of unnamed structs: the predicate is tight there); of the 86 with
+`embedCycle = true` 42 differ and 44 agree (sufficient, not tight: `type T struct { *T; X int }` agrees). The shape that
+differed before the repair of json/codec.go now agrees (`embedded_under_construction_agrees_dec`).
 -/
 theorem chooseDec_eq_std_partial (env : Env) (t : TD) (a viaPtr : Bool) (hs : SimpleD env t = true)
     (hk : KeysOKD env t = true) (d : Nat) :
@@ -257,6 +332,9 @@ example :
 end Enc.Props.C01CodecDec
 
 #print axioms Enc.Props.C01CodecDec.chooseDec_terminates
+#print axioms Enc.Props.C01CodecDec.chooseDec_eq_std
+#print axioms Enc.Props.C01CodecDec.chooseDec_eq_std_pos
+#print axioms Enc.Props.C01CodecDec.chooseDec_eq_std_needs_hypotheses
 #print axioms Enc.Props.C01CodecDec.chooseDec_eq_std_partial
 #print axioms Enc.Props.C01CodecDec.unmarshaler_order_eq_std
 #print axioms Enc.Props.C01CodecDec.cache_history_independent_dec
